@@ -1,5 +1,5 @@
 //@PROBE file=src/trackers/visual_sort/batch_api.rs test=verif_probe_tracker_kinds clauses=tracker_kinds
-//@BOUND the four tracker kinds (Sort, BatchSort, VisualSort, BatchVisualSort) x {IoU(0.3), Mahalanobis} x store shards 1..=2 (NON-default Kalman weights: loose with one shard, tight with two) x voting workers 1..=2, history length 4 != max idle 2; one 12-step script over two scenes occupying the SAME image region (objects that disappear for 1, 3 and 4 steps, negative / large angles, confidence 0.6, an object that jumps 150 px keeping its appearance, a feature-less detection covering a third of another one; visual kinds with Euclidean(0.5) / Cosine(0.2) appearance metrics and own-area thresholds use=collect=0.4 / collect-only 0.8; per record also the number of collected features and the stored own-area share): (1) the per-call record contract, (2) the scene-1 trace of the two-scene run equals the run of scene 1 alone up to renaming of ids, (3) each batch kind equals its simple kind per scene up to renaming, (4) idle listing after the last step; wasted() hands every track out once, with histories that hold the most recent min(length, history) entries in arrival order; custom ids sometimes absent; batch requests filled round-robin across the scenes; the stored own-area share equals the library's share of the detection among the detections of its own scene
+//@BOUND the four tracker kinds (Sort, BatchSort, VisualSort, BatchVisualSort) x {IoU(0.3), Mahalanobis} x store shards 1..=2 (NON-default Kalman weights: loose with one shard, tight with two) x voting workers 1..=2, history length 4 != max idle 2; one 12-step script over two scenes occupying the SAME image region (scene 2 absent from one call; objects that disappear for 1, 2 - a gap of exactly max idle + 1 epochs -, 3 and 4 steps, a small box below the minimal area that carries a feature, an object that loses its feature after having been attached by appearance, negative / large angles, confidence 0.6, an object that jumps 150 px keeping its appearance, a feature-less detection covering a third of another one; visual kinds with Euclidean(0.5) / Cosine(0.2) appearance metrics and own-area thresholds use=collect=0.4 / collect-only 0.8; per record also the number of collected features and the stored own-area share): (1) the per-call record contract, (2) each scene's trace in the two-scene run equals the run of that scene alone up to renaming of ids, an expired track is never continued, visual voting is reported only for detections with a feature on the appearance trackers, (3) each batch kind equals its simple kind per scene up to renaming, (4) idle listing after the last step; wasted() hands every track out once, with box and feature histories that hold the most recent min(length, history) entries in arrival order; custom ids sometimes absent; batch requests filled round-robin across the scenes; the stored own-area share equals the library's share of the detection among the detections of its own scene
 #[cfg(test)]
 mod verif_probe_tracker_kinds {
     // Bounded stand-in for the tracker-level clauses of C01 / C03 / C04 over ALL tracker kinds (predict* drive store
@@ -33,7 +33,9 @@ mod verif_probe_tracker_kinds {
             (1, 2) => step <= 2 || step >= 7,          // four missing steps: within the HISTORY length but beyond max idle
             (1, 3) => step >= 1,                       // jumps at step 6
             (1, 4) => (2..=9).contains(&step),         // carries NO feature and covers about a third of (1, 0)
-            (2, 0) => true,                            // same image region as (1, 0)
+            (1, 5) => step != 5,                       // a SMALL box (area 2 < visual_minimal_area 5) that carries a feature
+            (1, 6) => step <= 3 || step >= 6,          // two missing steps: a gap of exactly max idle + 1 epochs - expired, never continued
+            (2, 0) => step % 4 != 3,                   // same image region as (1, 0); scene 2 is absent from the call at step 7
             (2, 1) => step % 3 != 1,                   // same image region as (1, 3) after its jump
             _ => false,
         }
@@ -46,6 +48,8 @@ mod verif_probe_tracker_kinds {
             (1, 2) => (700.0 - 1.5 * s, 90.0, Some(7.0), 1.2, 40.0),
             (1, 3) => (if step < 6 { 1000.0 + s } else { 1150.0 + s }, 300.0, Some(0.4), 0.6, 70.0),
             (1, 4) => (120.0 + 2.0 * s, 100.0, Some(-0.3 + 0.01 * s), 0.5, 60.0),
+            (1, 5) => (1500.0, 600.0, None, 0.5, 2.0),
+            (1, 6) => (1800.0 + s, 500.0 - s, Some(1.0), 0.7, 50.0),
             _ => (1150.0 + s, 300.0, Some(0.4), 0.6, 70.0), // (2, 1)
         };
         // 16-dim appearance features. Euclidean runs: a unit vector per object plus a small wobble. Cosine runs: the same, but the
@@ -53,7 +57,9 @@ mod verif_probe_tracker_kinds {
         let mut feat = vec![0.0f32; 16];
         if cosine && scene == 1 && obj == 3 { feat[15] = 0.6f32.sqrt(); feat[8 + step % 6] = 0.4f32.sqrt(); }
         else { feat[(obj + 4 * (scene as usize - 1)) % 8] = 1.0; feat[7 - obj % 4] += 0.05 * (step % 2) as f32; }
-        let feat = if scene == 1 && obj == 4 { None } else { Some(feat) };
+        // (1, 4) never carries a feature; the jumping object (1, 3) loses its feature from step 9 on: after its appearance
+        // attachments it is attached by position again
+        let feat = if scene == 1 && (obj == 4 || (obj == 3 && step >= 9)) { None } else { Some(feat) };
         Det { bbox: Universal2DBox::new_with_confidence(x, y, ang, asp, h, 0.6), feat, cid: if (step + obj) % 3 == 2 { None } else { Some((1000 * scene as i64 + 10 * obj as i64) * 100 + step as i64) }, obj }
     }
 
@@ -119,14 +125,15 @@ mod verif_probe_tracker_kinds {
         }
         fn idle(&mut self, s: u64) -> Vec<u64> { let mut v: Vec<u64> = match self { T::S(t) => t.idle_tracks_with_scene(s), T::BS(t) => t.idle_tracks_with_scene(s), T::V(t) => t.idle_tracks_with_scene(s), T::BV(t) => t.idle_tracks_with_scene(s) }.iter().map(|x| x.id).collect(); v.sort(); v }
         fn skip(&mut self, s: u64, n: usize) { match self { T::S(t) => t.skip_epochs_for_scene(s, n), T::BS(t) => t.skip_epochs_for_scene(s, n), T::V(t) => t.skip_epochs_for_scene(s, n), T::BV(t) => t.skip_epochs_for_scene(s, n) } }
-        /// the wasted-track records: (id, observed history, echoed observed box, predicted history, echoed predicted box)
-        fn wasted_records(&mut self) -> Vec<(u64, Vec<[u32; 5]>, [u32; 5], Vec<[u32; 5]>, [u32; 5])> {
+        /// the wasted-track records: (id, observed history, echoed observed box, predicted history, echoed predicted box, feature history - visual kinds only)
+        fn wasted_records(&mut self) -> Vec<(u64, Vec<[u32; 5]>, [u32; 5], Vec<[u32; 5]>, [u32; 5], Option<Vec<Option<Vec<u32>>>>)> {
             let hb = |v: &Vec<Universal2DBox>| v.iter().map(bits).collect::<Vec<_>>();
+            let hf = |v: &Vec<Option<Vec<f32>>>| v.iter().map(|f| f.as_ref().map(|f| fbits(f))).collect::<Vec<_>>();
             let mut v: Vec<_> = match self {
-                T::S(t) => t.wasted().into_iter().map(crate::trackers::sort::WastedSortTrack::from).map(|w| (w.id, hb(&w.observed_boxes), bits(&w.observed_bbox), hb(&w.predicted_boxes), bits(&w.predicted_bbox))).collect(),
-                T::BS(t) => t.wasted().into_iter().map(crate::trackers::sort::WastedSortTrack::from).map(|w| (w.id, hb(&w.observed_boxes), bits(&w.observed_bbox), hb(&w.predicted_boxes), bits(&w.predicted_bbox))).collect(),
-                T::V(t) => t.wasted().into_iter().map(crate::trackers::visual_sort::WastedVisualSortTrack::from).map(|w| (w.id, hb(&w.observed_boxes), bits(&w.observed_bbox), hb(&w.predicted_boxes), bits(&w.predicted_bbox))).collect(),
-                T::BV(t) => t.wasted().into_iter().map(crate::trackers::visual_sort::WastedVisualSortTrack::from).map(|w| (w.id, hb(&w.observed_boxes), bits(&w.observed_bbox), hb(&w.predicted_boxes), bits(&w.predicted_bbox))).collect(),
+                T::S(t) => t.wasted().into_iter().map(crate::trackers::sort::WastedSortTrack::from).map(|w| (w.id, hb(&w.observed_boxes), bits(&w.observed_bbox), hb(&w.predicted_boxes), bits(&w.predicted_bbox), None)).collect(),
+                T::BS(t) => t.wasted().into_iter().map(crate::trackers::sort::WastedSortTrack::from).map(|w| (w.id, hb(&w.observed_boxes), bits(&w.observed_bbox), hb(&w.predicted_boxes), bits(&w.predicted_bbox), None)).collect(),
+                T::V(t) => t.wasted().into_iter().map(crate::trackers::visual_sort::WastedVisualSortTrack::from).map(|w| (w.id, hb(&w.observed_boxes), bits(&w.observed_bbox), hb(&w.predicted_boxes), bits(&w.predicted_bbox), Some(hf(&w.observed_features)))).collect(),
+                T::BV(t) => t.wasted().into_iter().map(crate::trackers::visual_sort::WastedVisualSortTrack::from).map(|w| (w.id, hb(&w.observed_boxes), bits(&w.observed_bbox), hb(&w.predicted_boxes), bits(&w.predicted_bbox), Some(hf(&w.observed_features)))).collect(),
             };
             v.sort_by_key(|x| x.0);
             v
@@ -137,16 +144,25 @@ mod verif_probe_tracker_kinds {
     type Rec = (usize, usize, usize, [u32; 5], [u32; 5], (usize, u32));
     fn bits(b: &Universal2DBox) -> [u32; 5] { [b.xc.to_bits(), b.yc.to_bits(), b.angle.map(|a| a.to_bits()).unwrap_or(u32::MAX), b.aspect.to_bits(), b.height.to_bits()] }
 
-    /// runs the script restricted to `scenes`; returns the trace of `watch` and the final (idle, wasted) of `watch` renamed
-    fn run(kind: Kind, method: PositionalMetricType, shards: usize, voters: usize, variant: u8, scenes: &[u64], watch: u64, failures: &mut Vec<String>) -> (Vec<Vec<Rec>>, Vec<usize>, Vec<usize>) {
+    /// the first 16 components of a feature (the library pads features to whole blocks of 8)
+    fn fbits(f: &[f32]) -> Vec<u32> { f.iter().take(16).map(|x| x.to_bits()).collect() }
+
+    /// what is observed of one scene: its trace (one row per call) and its final (idle, wasted) track names
+    type SceneTrace = (Vec<Vec<Rec>>, Vec<usize>, Vec<usize>);
+
+    /// runs the script restricted to `scenes`; returns per scene its trace and the final (idle, wasted), track ids renamed by first appearance within the scene
+    fn run(kind: Kind, method: PositionalMetricType, shards: usize, voters: usize, variant: u8, scenes: &[u64], failures: &mut Vec<String>) -> HashMap<u64, SceneTrace> {
         let ctx = format!("PROBE input: tracker_kinds kind={:?} method={:?} shards={} voters={} visual variant={} scenes={:?}", kind, method, shards, voters, variant, scenes);
+        let visual = matches!(kind, Kind::V | Kind::BV);
         let mut t = make(kind, method, shards, voters, variant);
         let mut jump_track: Option<usize> = None;
-        let mut names: HashMap<u64, usize> = HashMap::new();
-        let mut trace = vec![];
+        let mut names: HashMap<u64, HashMap<u64, usize>> = HashMap::new();         // scene -> track id -> name
+        let mut traces: HashMap<u64, Vec<Vec<Rec>>> = HashMap::new();
+        let mut last_seen: HashMap<(u64, usize), usize> = HashMap::new();            // (scene, track name) -> epoch of its last record
+        let mut feats: HashMap<(u64, usize), Vec<Option<Vec<u32>>>> = HashMap::new(); // (scene, track name) -> features of its detections in arrival order
         let mut epochs: HashMap<u64, usize> = HashMap::new();
         for step in 0..12usize {
-            let batch: Vec<(u64, Vec<Det>)> = scenes.iter().map(|s| (*s, (0..5).filter(|o| present(*s, *o, step)).map(|o| det(*s, o, step, variant & 1 == 1)).collect::<Vec<_>>())).filter(|(_, d)| !d.is_empty()).collect();
+            let batch: Vec<(u64, Vec<Det>)> = scenes.iter().map(|s| (*s, (0..7).filter(|o| present(*s, *o, step)).map(|o| det(*s, o, step, variant & 1 == 1)).collect::<Vec<_>>())).filter(|(_, d)| !d.is_empty()).collect();
             let out = t.step(&batch);
             if out.len() != batch.len() || out.contains_key(&u64::MAX) { failures.push(format!("{} step={}: tracker_kinds.one_result_per_scene: the batch of {} scenes did not deliver exactly one result per scene", ctx, step, batch.len())); }
             for (s, dets) in batch.iter() {
@@ -162,11 +178,20 @@ mod verif_probe_tracker_kinds {
                         failures.push(format!("{} step={} scene={} detection #{}: tracker_kinds.record_echoes_its_detection_in_submission_order: got (box {:?} conf {}, custom id {:?}, scene {}, epoch {}) for detection (box {:?} conf {}, custom id {:?}, scene {}, epoch {})", ctx, step, s, k,
                             (r.observed_bbox.xc, r.observed_bbox.yc, r.observed_bbox.angle, r.observed_bbox.aspect, r.observed_bbox.height), r.observed_bbox.confidence, r.custom_object_id, r.scene_id, r.epoch, (d.bbox.xc, d.bbox.yc, d.bbox.angle, d.bbox.aspect, d.bbox.height), d.bbox.confidence, d.cid, s, e));
                     }
-                    if *s != watch { continue; }
-                    let n = names.len();
-                    let name = *names.entry(r.id).or_insert(n);
+                    let sn = names.entry(*s).or_default();
+                    let n = sn.len();
+                    let name = *sn.entry(r.id).or_insert(n);
+                    // an expired track is never continued: the scene's epoch exceeds its last update by more than max idle
+                    if let Some(last) = last_seen.insert((*s, name), e) {
+                        if e - last > IDLE { failures.push(format!("{} step={} scene={} detection #{}: tracker_kinds.an_expired_track_is_never_continued: track {} was last updated in epoch {} and is continued in epoch {} (max idle {})", ctx, step, s, k, name, last, e, IDLE)); }
+                    }
+                    // visual voting is reported only for attachments by appearance: never by a positional tracker, never for a detection without a feature
+                    if matches!(r.voting_type, VotingType::Visual) && (!visual || d.feat.is_none()) {
+                        failures.push(format!("{} step={} scene={} detection #{}: tracker_kinds.visual_voting_reported_only_for_attachments_by_appearance: track {} reported as attached by Visual voting ({})", ctx, step, s, k, name, if visual { "the detection carries no feature" } else { "positional tracker" }));
+                    }
+                    feats.entry((*s, name)).or_default().push(d.feat.as_ref().map(|f| fbits(f)));
                     let gal = t.gallery(r.id);
-                    if matches!(kind, Kind::V | Kind::BV) {
+                    if visual {
                         // an own-area threshold is configured in every visual variant: the share stored with the newest observation is
                         // the library's own share of this detection among the detections of ITS scene in this call
                         let boxes: Vec<&Universal2DBox> = dets.iter().map(|x| &x.bbox).collect();
@@ -174,13 +199,12 @@ mod verif_probe_tracker_kinds {
                         let want_k = (want[k] * 1000.0).round() as u32;
                         if gal.1 != want_k { failures.push(format!("{} step={} scene={} detection #{}: tracker_kinds.own_area_share_of_the_detection_within_its_scene_is_recorded: stored share x1000 = {} (4294967295 = none), the share among the scene's detections is {}", ctx, step, s, k, gal.1, want_k)); }
                     }
-                    if *s == watch { row.push((name, r.epoch, r.length, bits(&r.observed_bbox), bits(&r.predicted_bbox), gal)); }
+                    row.push((name, r.epoch, r.length, bits(&r.observed_bbox), bits(&r.predicted_bbox), gal));
                     // ground truth for the object that jumps 150 px at step 6 keeping its appearance: the appearance trackers
                     // re-identify it (same track, reported as a visual attachment), the positional trackers start a new track
                     if *s == 1 && d.obj == 3 {
                         if step == 5 { jump_track = Some(name); }
                         if step == 6 {
-                            let visual = matches!(kind, Kind::V | Kind::BV);
                             if visual && (Some(name) != jump_track || !matches!(r.voting_type, VotingType::Visual)) {
                                 failures.push(format!("{} step=6: tracker_kinds.appearance_reidentifies_the_jumped_object: got track {} (voting {:?}), expected track {:?} attached by Visual voting", ctx, name, r.voting_type, jump_track));
                             }
@@ -188,62 +212,80 @@ mod verif_probe_tracker_kinds {
                         }
                     }
                 }
-                if *s == watch { trace.push(row); }
+                traces.entry(*s).or_default().push(row);
             }
         }
-        let idle: Vec<usize> = t.idle(watch).iter().map(|i| *names.get(i).unwrap_or(&999)).collect();
-        t.skip(watch, 10);
+        let empty = HashMap::new();
+        let idle: HashMap<u64, Vec<usize>> = scenes.iter().map(|sc| (*sc, t.idle(*sc).iter().map(|i| *names.get(sc).unwrap_or(&empty).get(i).unwrap_or(&999)).collect())).collect();
+        for sc in scenes { t.skip(*sc, 10); }
         let recs = t.wasted_records();
-        let mut w: Vec<usize> = recs.iter().filter_map(|r| names.get(&r.0).copied()).collect(); w.sort();
-        // the histories handed out with a collected track: the most recent min(length, history length) entries in arrival order
-        for r in recs.iter() {
-            if let Some(name) = names.get(&r.0) {
-                let seen: Vec<([u32; 5], [u32; 5])> = trace.iter().flat_map(|row| row.iter().filter(|x| x.0 == *name).map(|x| (x.3, x.4))).collect();
-                let keep = seen.len().min(HIST);
-                let want_obs: Vec<[u32; 5]> = seen[seen.len() - keep..].iter().map(|x| x.0).collect();
-                let want_pred: Vec<[u32; 5]> = seen[seen.len() - keep..].iter().map(|x| x.1).collect();
-                if r.1 != want_obs || r.3 != want_pred || Some(&r.2) != want_obs.last() || Some(&r.4) != want_pred.last() {
-                    failures.push(format!("{}: tracker_kinds.wasted_record_hands_out_the_most_recent_history_entries_in_order: track {} (length {}): observed history has {} entries (expected the last {}), echoed box is the last entry: {}, predicted history matches: {}", ctx, name, seen.len(), r.1.len(), keep, Some(&r.2) == want_obs.last() && r.1.last() == want_obs.last(), r.3 == want_pred));
+        let mut result: HashMap<u64, SceneTrace> = HashMap::new();
+        for sc in scenes {
+            let sn = names.get(sc).unwrap_or(&empty);
+            let trace = traces.remove(sc).unwrap_or_default();
+            let mut w: Vec<usize> = recs.iter().filter_map(|r| sn.get(&r.0).copied()).collect(); w.sort();
+            // the histories handed out with a collected track: the most recent min(length, history length) entries in arrival order
+            for r in recs.iter() {
+                if let Some(name) = sn.get(&r.0) {
+                    let seen: Vec<([u32; 5], [u32; 5])> = trace.iter().flat_map(|row| row.iter().filter(|x| x.0 == *name).map(|x| (x.3, x.4))).collect();
+                    let keep = seen.len().min(HIST);
+                    let want_obs: Vec<[u32; 5]> = seen[seen.len() - keep..].iter().map(|x| x.0).collect();
+                    let want_pred: Vec<[u32; 5]> = seen[seen.len() - keep..].iter().map(|x| x.1).collect();
+                    if r.1 != want_obs || r.3 != want_pred || Some(&r.2) != want_obs.last() || Some(&r.4) != want_pred.last() {
+                        failures.push(format!("{}: tracker_kinds.wasted_record_hands_out_the_most_recent_history_entries_in_order: scene {} track {} (length {}): observed history has {} entries (expected the last {}), echoed box is the last entry: {}, predicted history matches: {}", ctx, sc, name, seen.len(), r.1.len(), keep, Some(&r.2) == want_obs.last() && r.1.last() == want_obs.last(), r.3 == want_pred));
+                    }
+                    if let Some(hist) = &r.5 {
+                        let all = &feats[&(*sc, *name)];
+                        let want_f = &all[all.len() - keep..];
+                        if hist.as_slice() != want_f {
+                            failures.push(format!("{}: tracker_kinds.wasted_record_hands_out_the_most_recent_features_in_order: scene {} track {} (length {}): feature history present/absent {:?}, the last {} detections carried {:?}", ctx, sc, name, all.len(), hist.iter().map(|f| f.is_some()).collect::<Vec<_>>(), keep, want_f.iter().map(|f| f.is_some()).collect::<Vec<_>>()));
+                        }
+                    }
                 }
             }
+            result.insert(*sc, (trace, idle[sc].clone(), w));
         }
-        if !t.wasted_records().iter().all(|r| !names.contains_key(&r.0)) { failures.push(format!("{}: tracker_kinds.wasted_hands_out_once: a track was handed out twice", ctx)); }
-        (trace, idle, w)
+        if !t.wasted_records().iter().all(|r| !names.values().any(|sn| sn.contains_key(&r.0))) { failures.push(format!("{}: tracker_kinds.wasted_hands_out_once: a track was handed out twice", ctx)); }
+        result
     }
 
     #[test]
     fn verif_probe_tracker_kinds() {
         let mut failures: Vec<String> = vec![];
         let mut cases = 0u64;
+        let show = |t: &SceneTrace, k: Option<usize>| k.map(|k| t.0[k].iter().map(|r| (r.0, r.1, r.2, r.5)).collect::<Vec<_>>());
         for method in [IoU(0.3), Mahalanobis] { for shards in 1usize..=2 {
             for variant in 0u8..4 {
-            let mut simple: HashMap<Kind, (Vec<Vec<Rec>>, Vec<usize>, Vec<usize>)> = HashMap::new();
+            let mut simple: HashMap<(Kind, u64), SceneTrace> = HashMap::new();
             for (kind, voters) in [(Kind::S, 1usize), (Kind::V, 1), (Kind::BS, 1), (Kind::BS, 2), (Kind::BV, 1), (Kind::BV, 2)] {
                 if variant > 0 && matches!(kind, Kind::S | Kind::BS) { continue; }
                 cases += 1;
-                let both = run(kind, method, shards, voters, variant, &[1, 2], 1, &mut failures);
-                let alone = run(kind, method, shards, voters, variant, &[1], 1, &mut failures);
+                let mut both = run(kind, method, shards, voters, variant, &[1, 2], &mut failures);
                 let ctx = format!("PROBE input: tracker_kinds kind={:?} method={:?} shards={} voters={} visual variant={}", kind, method, shards, voters, variant);
-                if both != alone {
-                    let k = (0..both.0.len().min(alone.0.len())).find(|k| both.0[*k] != alone.0[*k]);
-                    failures.push(format!("{}: tracker_kinds.scene_grouping_is_the_same_with_and_without_other_scenes: scene 1 is tracked differently when calls for scene 2 (same image region) are interleaved; first difference at its call #{:?}: (track, epoch, length, (features collected, own-area share x1000)) {:?} vs alone {:?}; final idle {:?}/{:?} wasted {:?}/{:?}", ctx, k,
-                        k.map(|k| both.0[k].iter().map(|r| (r.0, r.1, r.2, r.5)).collect::<Vec<_>>()), k.map(|k| alone.0[k].iter().map(|r| (r.0, r.1, r.2, r.5)).collect::<Vec<_>>()), both.1, alone.1, both.2, alone.2));
-                }
-                match kind {
-                    Kind::S | Kind::V => { simple.insert(kind, alone); }
-                    Kind::BS | Kind::BV => {
-                        let reference = &simple[&if kind == Kind::BS { Kind::S } else { Kind::V }];
-                        if &alone != reference {
-                            let k = (0..alone.0.len().min(reference.0.len())).find(|k| alone.0[*k] != reference.0[*k]);
-                            failures.push(format!("{}: tracker_kinds.batch_tracker_groups_like_the_simple_tracker: first difference at call #{:?}: (track, epoch, length, (features collected, own-area share x1000)) batch {:?} vs simple {:?}; final idle {:?}/{:?} wasted {:?}/{:?}", ctx, k,
-                                k.map(|k| alone.0[k].iter().map(|r| (r.0, r.1, r.2, r.5)).collect::<Vec<_>>()), k.map(|k| reference.0[k].iter().map(|r| (r.0, r.1, r.2, r.5)).collect::<Vec<_>>()), alone.1, reference.1, alone.2, reference.2));
+                for sc in [1u64, 2] {
+                    let alone = run(kind, method, shards, voters, variant, &[sc], &mut failures).remove(&sc).unwrap();
+                    let both = both.remove(&sc).unwrap();
+                    if both != alone {
+                        let k = (0..both.0.len().min(alone.0.len())).find(|k| both.0[*k] != alone.0[*k]);
+                        failures.push(format!("{}: tracker_kinds.scene_grouping_is_the_same_with_and_without_other_scenes: scene {} is tracked differently when calls for the other scene (same image region) are interleaved; first difference at its call #{:?}: (track, epoch, length, (features collected, own-area share x1000)) {:?} vs alone {:?}; final idle {:?}/{:?} wasted {:?}/{:?}", ctx, sc, k,
+                            show(&both, k), show(&alone, k), both.1, alone.1, both.2, alone.2));
+                    }
+                    match kind {
+                        Kind::S | Kind::V => { simple.insert((kind, sc), alone); }
+                        Kind::BS | Kind::BV => {
+                            let reference = &simple[&(if kind == Kind::BS { Kind::S } else { Kind::V }, sc)];
+                            if &alone != reference {
+                                let k = (0..alone.0.len().min(reference.0.len())).find(|k| alone.0[*k] != reference.0[*k]);
+                                failures.push(format!("{}: tracker_kinds.batch_tracker_groups_like_the_simple_tracker: scene {}: first difference at call #{:?}: (track, epoch, length, (features collected, own-area share x1000)) batch {:?} vs simple {:?}; final idle {:?}/{:?} wasted {:?}/{:?}", ctx, sc, k,
+                                    show(&alone, k), show(reference, k), alone.1, reference.1, alone.2, reference.2));
+                            }
                         }
                     }
                 }
             }
             }
         } }
-        eprintln!("PROBE cases={} nontrivial={}", cases * 24, cases * 24);
+        eprintln!("PROBE cases={} nontrivial={}", cases * 35, cases * 35);
         for f in failures.iter().take(12) { eprintln!("{}", f); }
         assert!(failures.is_empty(), "PROBE found {} failing inputs; first: {}", failures.len(), failures[0]);
     }
